@@ -325,6 +325,12 @@ class Builtins:
             if len(pos) == 1 and self.E.is_int(pos[0]):
                 n = S(pos[0]); k = z3.Int("k!rg")
                 yield ("val", SList(z3.If(n < 0, 0, n), z3.Lambda([k], k), lambda t: t), st); return
+            if len(pos) in (2, 3) and all(self.E.is_int(p) for p in pos) and (len(pos) == 2 or cs[2] in (1, -1)):
+                # range(a, b) / range(a, b, 1): a, a+1, ..., b-1;  range(a, b, -1): a, a-1, ..., b+1  (empty when the bound is already passed)
+                a, b = S(pos[0]), S(pos[1]); k = z3.Int("k!rg")
+                if len(pos) == 2 or cs[2] == 1:
+                    yield ("val", SList(z3.If(b - a < 0, 0, b - a), z3.Lambda([k], a + k), lambda t: t), st); return
+                yield ("val", SList(z3.If(a - b < 0, 0, a - b), z3.Lambda([k], a - k), lambda t: t), st); return
             raise Unsupported("symbolic range")
         yield ("val", list(range(*cs)), st)
 
